@@ -385,9 +385,9 @@ class MappingMethod(DeserializationMethod):
         items: dict = {}
         for key, value in data.items():
             try:
-                items[self.key_method.deserialize(key)] = self.value_method.deserialize(
-                    value
-                )
+                # deserialize key first, as MappingCheckOnly does (no_copy option)
+                deserialized_key = self.key_method.deserialize(key)
+                items[deserialized_key] = self.value_method.deserialize(value)
             except ValidationError as err:
                 item_errors = set_child_error(item_errors, key, err)
         validate_constraints(data, self.constraints, item_errors)
